@@ -5,7 +5,7 @@
 (* 32 bit, so everything the VM does with script integers (decode, add,   *)
 (* subtract, compare, encode) is done on limbs here.                       *)
 (***************************************************************************)
-EXTENDS Bytes
+EXTENDS Bytes, TLC
 
 RECURSIVE Norm(_)
 Norm(m) == IF m # <<>> /\ m[1] = 0 THEN Norm(Tail(m)) ELSE m
@@ -84,4 +84,12 @@ EncS(x) ==
 ValidEnc(b, x) == /\ Len(b) >= 1
                   /\ DecS(b) = x
                   /\ Len(b) <= Len(EncS(x)) + 1
+\* decimal text of an integer (long division of the magnitude by 10)
+RECURSIVE Div10R(_, _, _, _)
+Div10R(m, i, rem, acc) == IF i > Len(m) THEN <<acc, rem>>
+                          ELSE LET cur == rem * 256 + m[i] IN Div10R(m, i + 1, cur % 10, Append(acc, cur \div 10))
+Div10(m) == LET r == Div10R(m, 1, 0, <<>>) IN <<Norm(r[1]), r[2]>>
+RECURSIVE MagDec(_)
+MagDec(m) == IF m = <<>> THEN "" ELSE LET r == Div10(m) IN MagDec(r[1]) \o ToString(r[2])
+DecStr(x) == IF IsZero(x) THEN "0" ELSE (IF x.neg THEN "-" ELSE "") \o MagDec(x.mag)
 =============================================================================
